@@ -128,6 +128,21 @@ def handle(r: dict) -> object:
                 ok = (q.marker is None or q.marker.evaluate(e)) and (v is None or q.specifier.contains(Version(v), prereleases=True))
                 out.append(ok)
             return ["ok", out]
+        if op == "reqtok":
+            # requirement selection with the token/set reading of markers (as C06): cases = [[version|None, env-with-extra-list], …]
+            q = Requirement(r["s"])
+            out = []
+            for v, e in r["cases"]:
+                extras = list(e.get("extra", []))
+                base = {k: x for k, x in e.items() if k != "extra"}
+                base["extra"] = extras[0] if len(extras) == 1 else ""
+                try:
+                    mk = True if q.marker is None else _tok_eval(q.marker._markers, base, extras)
+                    sp = True if v is None else q.specifier.contains(Version(v), prereleases=True)
+                    out.append(bool(mk and sp))
+                except Exception as ex:  # noqa: BLE001
+                    out.append("exc:" + type(ex).__name__)
+            return ["ok", canonicalize_name(q.name), sorted(q.extras), out]
         if op == "canon":
             return ["ok", canonicalize_name(r["s"])]
         if op == "wheelname":   # build checks: PEP 427 file name → (canonical name, normal version, build, expanded tags)
